@@ -44,6 +44,7 @@ import (
 	"path/filepath"
 	"sort"
 	"strings"
+	"time"
 
 	"golang.org/x/tools/go/packages"
 )
@@ -74,6 +75,12 @@ type ccCtx struct {
 	// state.Contract in ManagementCache.contracts; pwrites: assignments through a pointer to one of them.
 	pointees map[string]bool
 	pwrites  map[string]bool
+	// aliases: writes / pointer-receiver calls / hand-overs through a local variable that was bound to (part of)
+	// something stored in a cache object (`cs := cache.committee; cs[i].Votes.Add(…)`), invisible to `writes`
+	awrites map[string]bool
+	// xwrites: assignments through a pointer to a `pointees` type in the packages that get such pointers from the
+	// exported getters of package native (pkg/core, pkg/core/interop/...)
+	xwrites map[string]bool
 }
 
 // ccPointees collects the named struct types reachable through a pointer from t.
@@ -561,6 +568,7 @@ func (c *ccCtx) scanFunc(fd *ast.FuncDecl, rel string) {
 			return true
 		})
 	}
+	c.scanAliases(fd, rel, func(o types.Object) string { return ccJoin(src[o]) })
 	// parent blocks, to print the statement preceding a mixed-source write
 	prevStmt := map[ast.Stmt]ast.Stmt{}
 	ast.Inspect(fd.Body, func(n ast.Node) bool {
@@ -821,6 +829,170 @@ func (c *ccCtx) mentionsSame(e ast.Expr, root types.Object, path []string) bool 
 	return found
 }
 
+// scanAliases: taint analysis inside one function. A local variable is an ALIAS of a cache field if it holds
+// references (map, slice, pointer, struct with such) and was bound to an expression rooted in a tracked cache
+// variable or in another alias. Recorded: every assignment / delete / ++ / pointer-receiver method call whose
+// target is rooted in an alias, and every hand-over of an alias to a function of the package.
+func (c *ccCtx) scanAliases(fd *ast.FuncDecl, rel string, srcOf func(types.Object) string) {
+	info := c.info
+	fname := c.funcName(fd)
+	type origin struct{ field, src string }
+	alias := map[types.Object]origin{}
+	originOf := func(e ast.Expr) (origin, bool) {
+		id, steps := ccPath(e)
+		if id == nil {
+			// a call such as getCommitteeMembers(cache.committee) returns fresh data: not followed
+			return origin{}, false
+		}
+		o := info.ObjectOf(id)
+		if o == nil {
+			return origin{}, false
+		}
+		if tn := c.tracked(o.Type()); tn != "" {
+			f := ""
+			for _, st := range steps {
+				if st.sel != "" {
+					f = st.sel
+					break
+				}
+			}
+			if f == "" {
+				return origin{}, false // the cache object itself: covered by `writes`
+			}
+			return origin{tn + "." + f, srcOf(o)}, true
+		}
+		if og, ok := alias[o]; ok {
+			return og, true
+		}
+		return origin{}, false
+	}
+	bind := func(lhs *ast.Ident, rhs ast.Expr) {
+		o := info.ObjectOf(lhs)
+		if o == nil || c.tracked(o.Type()) != "" || !ccHasRef(o.Type(), map[types.Type]bool{}) {
+			return
+		}
+		if og, ok := originOf(rhs); ok {
+			alias[o] = og
+		}
+	}
+	for pass := 0; pass < 3; pass++ {
+		ast.Inspect(fd.Body, func(n ast.Node) bool {
+			switch s := n.(type) {
+			case *ast.AssignStmt:
+				if len(s.Lhs) == len(s.Rhs) {
+					for i, l := range s.Lhs {
+						if id, ok := l.(*ast.Ident); ok {
+							bind(id, s.Rhs[i])
+						}
+					}
+				} else if len(s.Rhs) == 1 && len(s.Lhs) == 2 { // v, ok := m[k]
+					if id, ok := s.Lhs[0].(*ast.Ident); ok {
+						bind(id, s.Rhs[0])
+					}
+				}
+			case *ast.ValueSpec:
+				for i, id := range s.Names {
+					if i < len(s.Values) {
+						bind(id, s.Values[i])
+					}
+				}
+			case *ast.RangeStmt:
+				if id, ok := s.Value.(*ast.Ident); ok && s.Value != nil {
+					bind(id, s.X)
+				}
+			}
+			return true
+		})
+	}
+	if len(alias) == 0 {
+		return
+	}
+	rooted := func(e ast.Expr) (origin, int, bool) {
+		id, steps := ccPath(e)
+		if id == nil {
+			return origin{}, 0, false
+		}
+		og, ok := alias[info.ObjectOf(id)]
+		return og, len(steps), ok
+	}
+	rec := func(og origin, kind string) {
+		c.awrites[rel+"\x00"+fname+"\x00"+og.field+"\x00"+kind+"\x00"+og.src] = true
+	}
+	ast.Inspect(fd.Body, func(n ast.Node) bool {
+		switch s := n.(type) {
+		case *ast.AssignStmt:
+			for _, l := range s.Lhs {
+				if _, isIdent := l.(*ast.Ident); isIdent {
+					continue
+				}
+				if og, k, ok := rooted(l); ok && k > 0 {
+					rec(og, "elem")
+				}
+			}
+		case *ast.IncDecStmt:
+			if og, k, ok := rooted(s.X); ok && k > 0 {
+				rec(og, "incdec")
+			}
+		case *ast.CallExpr:
+			if id, ok := s.Fun.(*ast.Ident); ok {
+				if _, builtin := info.Uses[id].(*types.Builtin); builtin {
+					if (id.Name == "delete" || id.Name == "clear") && len(s.Args) > 0 {
+						if og, _, ok := rooted(s.Args[0]); ok {
+							rec(og, "delete")
+						}
+					}
+					if id.Name == "append" && len(s.Args) > 0 { // append(alias, …) may write into the shared backing array
+						if og, _, ok := rooted(s.Args[0]); ok {
+							rec(og, "append")
+						}
+					}
+					if id.Name == "copy" && len(s.Args) > 0 {
+						if og, _, ok := rooted(s.Args[0]); ok {
+							rec(og, "copy-into")
+						}
+					}
+					return true
+				}
+			}
+			if se, ok := s.Fun.(*ast.SelectorExpr); ok {
+				if sel := info.Selections[se]; sel != nil && sel.Kind() == types.MethodVal {
+					fn := sel.Obj().(*types.Func)
+					_, ptrRecv := fn.Type().(*types.Signature).Recv().Type().(*types.Pointer)
+					if og, _, ok := rooted(se.X); ok && ptrRecv {
+						rec(og, "ptrcall:"+fn.Name())
+					}
+				}
+			}
+			var callee *types.Func
+			switch f := s.Fun.(type) {
+			case *ast.Ident:
+				callee, _ = info.Uses[f].(*types.Func)
+			case *ast.SelectorExpr:
+				callee, _ = info.Uses[f.Sel].(*types.Func)
+			}
+			for _, a := range s.Args {
+				og, _, ok := rooted(a)
+				if !ok {
+					continue
+				}
+				if at := info.TypeOf(a); at == nil || !ccHasRef(at, map[types.Type]bool{}) {
+					continue
+				}
+				name := "<dynamic> " + ccExpr(s.Fun)
+				if callee != nil {
+					if callee.Pkg() != nil && callee.Pkg() != c.tpkg {
+						name = "ext:" + callee.Pkg().Name() + "." + c.calleeName(callee)
+					} else {
+						name = c.calleeName(callee)
+					}
+				}
+				rec(og, "arg-of:"+name)
+			}
+		}
+		return true
+	})
+}
+
 // isNestedField: is T.path (path = field names) itself a by-value nested struct of the package, so that a
 // following selector still names a field of the cache object rather than something stored in a container?
 func (c *ccCtx) isNestedField(typ string, path []string) bool {
@@ -901,7 +1073,7 @@ func genCacheCopy(repo string) (string, error) {
 	}
 	c := &ccCtx{pkg: p, info: p.TypesInfo, tpkg: p.Types, caches: map[string]bool{}, nested: map[string]bool{},
 		funcs: map[*types.Func]*ast.FuncDecl{}, repo: repo, writes: map[string]bool{}, calls: map[string]bool{}, guards: map[string]bool{},
-		pointees: map[string]bool{}, pwrites: map[string]bool{}}
+		pointees: map[string]bool{}, pwrites: map[string]bool{}, awrites: map[string]bool{}, xwrites: map[string]bool{}}
 	type fileDecl struct {
 		rel string
 		fd  *ast.FuncDecl
@@ -974,6 +1146,77 @@ func genCacheCopy(repo string) (string, error) {
 	for _, d := range decls {
 		c.scanFunc(d.fd, d.rel)
 	}
+	// 4. the users of the exported getters (native.GetContract & co. hand out the cached *state.Contract itself)
+	xcfg := *cfg
+	t0 := time.Now()
+	defer func() {
+		if os.Getenv("VERIF_EXTRACT_TIMING") != "" {
+			fmt.Fprintf(os.Stderr, "CacheCopy: external packages scanned in %v\n", time.Since(t0))
+		}
+	}()
+	xpkgs, err := packages.Load(&xcfg, "./pkg/core", "./pkg/core/interop/...", "./pkg/core/stateroot", "./pkg/core/mempool")
+	if err != nil {
+		return "", err
+	}
+	xfuncs := 0
+	for _, xp := range xpkgs {
+		if len(xp.Errors) > 0 {
+			return "", fmt.Errorf("package %s: %v", xp.PkgPath, xp.Errors[0])
+		}
+		for _, f := range xp.Syntax {
+			path := xp.Fset.Position(f.Pos()).Filename
+			rel, err := filepath.Rel(repo, path)
+			if err != nil || strings.HasPrefix(rel, "..") || strings.HasSuffix(rel, "_test.go") {
+				continue
+			}
+			for _, d := range f.Decls {
+				fd, ok := d.(*ast.FuncDecl)
+				if !ok || fd.Body == nil {
+					continue
+				}
+				xfuncs++
+				fname := c.funcName(fd)
+				target := func(e ast.Expr, kind string) {
+					id, steps := ccPath(e)
+					if id == nil || len(steps) == 0 {
+						return
+					}
+					o := xp.TypesInfo.ObjectOf(id)
+					if o == nil {
+						return
+					}
+					pn := c.pointeeName(o.Type())
+					if pn == "" {
+						return
+					}
+					fld := "*"
+					for _, st := range steps {
+						if st.sel != "" {
+							fld = st.sel
+							break
+						}
+					}
+					c.xwrites[rel+"\x00"+fname+"\x00"+pn+"."+fld+"\x00"+kind+"\x00ptr"] = true
+				}
+				ast.Inspect(fd.Body, func(n ast.Node) bool {
+					switch s := n.(type) {
+					case *ast.AssignStmt:
+						for _, l := range s.Lhs {
+							if _, isIdent := l.(*ast.Ident); !isIdent {
+								target(l, "assign")
+							}
+						}
+					case *ast.IncDecStmt:
+						target(s.X, "incdec")
+					}
+					return true
+				})
+			}
+		}
+	}
+	if xfuncs < 100 {
+		return "", fmt.Errorf("only %d functions scanned outside package native: the extractor is broken", xfuncs)
+	}
 	if len(c.writes) < 10 || c.roSites == 0 || c.rwSites == 0 {
 		return "", fmt.Errorf("only %d cache writes, %d/%d accessor sites found: the extractor is broken", len(c.writes), c.roSites, c.rwSites)
 	}
@@ -1045,6 +1288,9 @@ func genCacheCopy(repo string) (string, error) {
 	}
 	fmt.Fprintf(&b, "/-- struct types a cache container holds POINTERS to (a cloned container still shares them) -/\ndef pointees : List String := [%s]\n\n", strings.Join(pl, ", "))
 	emitRows("pointeeWrites", "Write", "assignments in pkg/core/native through a pointer to one of `pointees` (expected: none, objects are copied before they are changed)", sorted(c.pwrites), 4)
+	emitRows("aliasWrites", "Write", "writes / pointer-receiver calls / hand-overs through a LOCAL ALIAS of something stored in a cache object: (file, function, `CacheType.field` the alias came from, kind, sources of the cache object)", sorted(c.awrites), 4)
+	emitRows("externalPointeeWrites", "Write", "assignments through a pointer to one of `pointees` in pkg/core, pkg/core/interop/..., stateroot, mempool (users of native.GetContract & co.)", sorted(c.xwrites), 4)
+	fmt.Fprintf(&b, "def externalFuncsScanned : Nat := %d\n\n", xfuncs)
 	emitRows("mixedGuards", "Guard", "the statement preceding a write/call whose object is bound to GetROCache and to something else in the same function", sorted(c.guards), -1)
 	fmt.Fprintf(&b, "def roSites : Nat := %d\ndef rwSites : Nat := %d\n\n", c.roSites, c.rwSites)
 	b.WriteString("end NeoModel.Generated.CacheCopy\n")
